@@ -1229,7 +1229,7 @@ def s0 : State where
   balances := [("alice", 100), ("carol", 7)]
   allow := []
   allowSp := []
-  version := ⟨CONTRACT_NAME, 2, 0, 0⟩
+  version := ⟨CONTRACT_NAME, 2, 0, 0, none⟩
 
 /-- after `IncreaseAllowance{bob, 50, AtHeight 20}` by alice -/
 def s1 : State :=
